@@ -910,7 +910,8 @@ class SsbGraphMinimizer:
         # If this would be the end but we are "Hold", then MAYBE there's still a statement after use, which we should
         # include, see notes at constant.
         if real_op.op_code.name == OP_HOLD and len(rtn) > op_i + 1:
-            if rtn[op_i + 1].op_code.name in OPS_THAT_END_CONTROL_FLOW:
+            # (not a second time, if the flow continues there anyway - behind a context op it does)
+            if rtn[op_i + 1].op_code.name in OPS_THAT_END_CONTROL_FLOW and (flow_level, op_i + 1) not in next_ops:
                 next_ops.append((flow_level, op_i + 1))
 
         return next_ops
